@@ -4,7 +4,7 @@
 from abc import abstractmethod, ABCMeta
 from dataclasses import dataclass, field
 import warnings
-from typing import List, Iterator, Optional, Dict
+from typing import List, Iterator, Optional, Dict, Tuple
 import numpy as np
 from tqdm import tqdm
 from qce_circuit.utilities.custom_exceptions import InterfaceMethodException
@@ -19,6 +19,7 @@ from qce_circuit.structure.intrf_circuit_operation import (
     ChannelIdentifier,
     ICircuitOperation,
     invalidate_start_time_memo,
+    get_start_time_memo_epoch,
 )
 from qce_circuit.structure.graph_traversal.intrf_graph_structure import (
     IEndpoint,
@@ -192,6 +193,7 @@ class CircuitCompositeOperation(ICircuitCompositeOperation):
     relation: IRelationLink[ICircuitOperation] = field(init=True, default_factory=RelationLink.no_relation)
     repetition_strategy: IRepetitionStrategy = field(init=True, default=FixedRepetitionStrategy(repetitions=1))
     _circuit_graph: CircuitGraphBranch = field(init=False, default_factory=CircuitGraphBranch)
+    _time_bounds_memo: Optional[Tuple[int, Tuple[float, float]]] = field(init=False, repr=False, compare=False, default=None)
 
     # region Interface Properties
     @property
@@ -229,22 +231,42 @@ class CircuitCompositeOperation(ICircuitCompositeOperation):
     @property
     def duration(self) -> float:
         """:return: Duration [ns]."""
-        total_duration: float = 0.0
-        # Guard clause, if graph does not contain non-Head nodes, return zero total duration
+        earliest_start, latest_end = self.get_relative_time_bounds()
+        return latest_end - earliest_start
+
+    def get_relative_time_bounds(self) -> Tuple[float, float]:
+        """
+        :return: Earliest start- and latest end-time over all contained operations (including nested ones),
+        relative to the start of this composite operation. Returns (0.0, 0.0) for an empty composite.
+        """
+        # Guard clause, if graph does not contain non-Head nodes, return zero bounds
         if self.empty_composite:
-            return total_duration
-        # Calculate relative start time of internal operations
-        relative_start_time: float = +np.inf
+            return 0.0, 0.0
+        # Memoized until anything the times depend on changes
+        epoch: int = get_start_time_memo_epoch()
+        if self._time_bounds_memo is not None and self._time_bounds_memo[0] == epoch:
+            return self._time_bounds_memo[1]
+        # Start time of this composite in the time frame of its own operations
+        reference_start_time: float = +np.inf
         for start_node in self._circuit_graph.get_nodes_at(depth=1):
-            start_time: float = start_node.operation.start_time
-            if start_time < relative_start_time:
-                relative_start_time = start_time
-        # Calculate internal duration of operation branch
-        for leaf_node in self._circuit_graph.leaf_nodes:
-            delta_time = leaf_node.operation.end_time - relative_start_time
-            if delta_time > total_duration:
-                total_duration = delta_time
-        return total_duration
+            reference_start_time = min(reference_start_time, start_node.operation.start_time)
+        # Any operation can bound the span, not only the first and last in relation order
+        earliest_start: float = +np.inf
+        latest_end: float = -np.inf
+        for node in self._circuit_graph.get_node_iterator():
+            operation: ICircuitOperation = node.operation
+            start_time: float = operation.start_time
+            if isinstance(operation, CircuitCompositeOperation):
+                relative_start, relative_end = operation.get_relative_time_bounds()
+                earliest_start = min(earliest_start, start_time + relative_start)
+                latest_end = max(latest_end, start_time + relative_end)
+            else:
+                earliest_start = min(earliest_start, start_time)
+                latest_end = max(latest_end, start_time + operation.duration)
+        result: Tuple[float, float] = (earliest_start - reference_start_time, latest_end - reference_start_time)
+        if epoch == get_start_time_memo_epoch():
+            self._time_bounds_memo = (epoch, result)
+        return result
     # endregion
 
     # region Interface Methods
